@@ -281,6 +281,9 @@ func (w *W) EvalN(n int64) { w.evals += n; w.prog.Add(1) }
 // Cell counts an evaluation into an oracle-side cell; returns true the first time this worker sees it.
 func (w *W) Cell(name string, nontrivial bool) bool {
 	n := w.cells[name]
+	if n == 0 {
+		w.autoSample(name)
+	}
 	w.cells[name] = n + 1
 	if nontrivial {
 		w.nontriv++
@@ -293,6 +296,9 @@ func (w *W) Cell(name string, nontrivial bool) bool {
 
 // CellN adds n evaluations to a cell (evaluations themselves are counted by Eval/EvalN).
 func (w *W) CellN(name string, n int64, nontrivial bool) {
+	if w.cells[name] == 0 {
+		w.autoSample(name)
+	}
 	w.cells[name] += n
 	if nontrivial {
 		w.nontriv += n
@@ -300,11 +306,19 @@ func (w *W) CellN(name string, n int64, nontrivial bool) {
 	}
 }
 
-func (w *W) Sample(cell string, v any) {
-	if _, ok := w.samples[cell]; !ok {
-		w.samples[cell] = v
+// autoSample records the case in flight as the sample of a cell seen for the first time (an explicit Sample wins).
+func (w *W) autoSample(cell string) {
+	if _, ok := w.samples[cell]; ok || w.Cur.Op == "" {
+		return
 	}
+	m := map[string]any{"op": w.Cur.Op, "args": w.Cur.args()}
+	if w.Cur.Mode != "" {
+		m["mode"] = w.Cur.Mode
+	}
+	w.samples[cell] = m
 }
+
+func (w *W) Sample(cell string, v any) { w.samples[cell] = v }
 
 func (w *W) Stopped() bool { return w.R.stop.Load() }
 
